@@ -432,3 +432,51 @@ def contracted4(ops, shells, prim_fn):
                 tot = tot + cf * v
             out[(ms[0], ia, ms[1], ib, ms[2], ic, ms[3], id_)] = tot
     return out
+
+
+# ---- pointwise evaluation ------------------------------------------------------------------
+
+
+def dpoly_at(ops, alpha, x, a, n):
+    """[d^n/dx^n (x^a e^{-alpha x^2})] / e^{-alpha x^2}  evaluated at x  (repeated symbolic differentiation)"""
+    poly = {a: ops.one}
+    for _ in range(n):
+        poly = deriv_poly(poly, alpha, ops.zero)
+    tot = ops.zero
+    for m, c in poly.items():
+        if m < 0:
+            continue
+        term = c
+        for _ in range(m):
+            term = term * x
+        tot = tot + term
+    return tot
+
+
+def eval_shell(ops, sh, point, orders, normalise=False):
+    """values [M][comp] of the (optionally normalised) contracted Cartesian functions' mixed derivative at point"""
+    l = sh["l"]
+    cs = comps(l)
+    K, M = len(sh["exps"]), len(sh["coeffs"][0])
+    d = [point[x] - sh["A"][x] for x in range(3)]
+    r2 = d[0] * d[0] + d[1] * d[1] + d[2] * d[2]
+    out = [[ops.zero for _ in cs] for _ in range(M)]
+    for ic, comp in enumerate(cs):
+        prim = []
+        for k in range(K):
+            a = sh["exps"][k]
+            v = norm_prim(ops, a, comp) * ops.exp(-a * r2)
+            for ax in range(3):
+                v = v * dpoly_at(ops, a, d[ax], comp[ax], orders[ax])
+            prim.append(v)
+        for m in range(M):
+            tot = ops.zero
+            for k in range(K):
+                tot = tot + sh["coeffs"][k][m] * prim[k]
+            out[m][ic] = tot
+    if normalise:
+        blk = contracted(ops, sh, sh, overlap_prim(ops, sh["A"], sh["A"]))
+        for m in range(M):
+            for ic in range(len(cs)):
+                out[m][ic] = out[m][ic] / ops.sqrt(blk[m][ic][m][ic])
+    return out
